@@ -1,5 +1,6 @@
 SPECIFICATION Spec
-CONSTANTS N = 3
+CONSTANTS DataPlane = "off"
+          N = 3
           MaxTime = 12
           Silent = 2
           FaultKind = "silent"
